@@ -70,7 +70,7 @@ _TIMEOUTS = [0]
 DISTURB = [[1, {"a": 1}], [2, {"a": [2]}], {"a": [3, [4]]}]
 
 
-def outputs_of(jp, env, q, doc, cap, late_flag=False, depth_limit=None):
+def outputs_of(jp, env, q, doc, cap, late_flag=False, depth_limit=None, late_policy="first"):
     from .. import impl  # noqa: PLC0415
 
     if late_flag:
@@ -110,7 +110,7 @@ def outputs_of(jp, env, q, doc, cap, late_flag=False, depth_limit=None):
         return res
 
     results, complete, runs = chooser.explore(jp, one, cap=cap, stop=lambda r: r == ("raised", "did not finish within the time limit"),
-                                              depth_limit=depth_limit)
+                                              depth_limit=depth_limit, late_policy=late_policy)
     return results, complete, runs
 
 
@@ -177,23 +177,32 @@ def run(chk: core.Check, tier: str, seed: int) -> None:
                 continue
             recs.append({"op": "nondet", "q": core.enc_text(q), "doc": ed, "complete": complete, "runs": runs,
                          "outputs": [[core.enc_loc(loc) for loc in o] for o in outs]})
-    # WIDE documents: [A, B1 .. Bk] with A = [[0]] and Bi = [i].  The container below A may be visited anywhere after A, so there are
-    # exactly k + 1 permitted results - and every one of them is reached by the FIRST merge alone (where A's child goes among the
-    # queued B's), whatever happens later.  Only that merge is explored (the later choices take their first outcome), which keeps a
-    # queue of 40 and more within reach; TLC computes the permitted set through the container formulation (AllowedResultsC, T8e).
+    # WIDE documents: [A, B1 .. Bk] with A = [[0]] and Bi = [i] - a queue longer than any small tree produces.  The container below A
+    # may be visited anywhere after A, so there are exactly k + 1 permitted results.  The whole choice tree is far out of reach; what
+    # is explored exhaustively is the FIRST call into `random` that has a real choice, the later calls following a fixed policy.
+    # That decides exhaustiveness only for an implementation whose result is a function of that first call alone - a premise that is
+    # TESTED here, not assumed: the exploration is repeated with the later calls taking their first outcome, their last outcome and
+    # seeded random outcomes, and only if all four give the same result leaf by leaf is equality with the permitted set demanded
+    # (TLC computes it through the container formulation AllowedResultsC, T8e).  Otherwise the record asks for validity only.
     for k in ((40,) if tier == "quick" else (40, 64, 100)):
         d = [[[0]]] + [[i] for i in range(1, k + 1)]
         ed = core.enc_value(d)
         for q in ("$..*", "$..[0]"):
-            results, _complete, runs = outputs_of(jp, env, q, d, cap, depth_limit=1)
-            total_runs += runs
-            outs = sorted(set(results), key=repr)
+            by_policy = []
+            for policy in ("first", "last", random.Random(seed + 1), random.Random(seed + 2)):
+                results, _complete, runs = outputs_of(jp, env, q, d, cap, depth_limit=1, late_policy=policy)
+                total_runs += runs
+                by_policy.append(results)
+            premise = all(r == by_policy[0] for r in by_policy[1:])
+            outs = sorted({o for res in by_policy for o in res}, key=repr)
             if any(o and o[0] == "raised" for o in outs):
-                chk.violation({"clause": "nondeterministic find raised"}, {"query": q, "doc": d, "outputs": [repr(o) for o in outs][:5]})
+                chk.violation({"clause": "nondeterministic find raised"}, {"query": q, "doc": f"wide document k={k}", "outputs": [repr(o) for o in outs][:5]})
                 continue
-            recs.append({"op": "nondet", "q": core.enc_text(q), "doc": ed, "complete": True, "wide": True, "runs": runs,
+            recs.append({"op": "nondet", "q": core.enc_text(q), "doc": ed, "complete": premise, "wide": True, "runs": 4 * runs,
                          "outputs": [[core.enc_loc(loc) for loc in o] for o in outs]})
-        chk.notes[f"wide_document_k{k}_runs"] = runs
+            chk.notes[f"wide_document_k{k}_{q}"] = (f"{len(outs)} results from {runs} outcomes of the first random call; the result "
+                                                   + ("depends on that call alone (tested under four policies for the later calls): equality demanded"
+                                                      if premise else "also depends on later calls: validity only"))
     # the recursion limit counts from the node the descendant segment is applied to, in this mode too:
     # data within the limit below that node must give permitted results, never an error
     for lim, d in [(3, {"a": {"a": {"a": {"b": 1}}}}), (2, [[[1], 2], [[3]]]), (3, {"a": [{"a": [0, {"b": 0}]}], "b": 0}),
